@@ -489,6 +489,23 @@ pub fn generate_section(rng: &mut Rng, p: &GenParams, kind: SectionKind, section
     generate_section_named(rng, p, kind, section, first_token, None)
 }
 
+/// A file section preceded by a commit header (as in `git log -p` / `git show`), optionally with
+/// `--stat` lines.
+pub fn generate_commit_unit(rng: &mut Rng, p: &GenParams, kind: SectionKind, section: usize, first_token: usize, name: Option<String>, with_stat: bool) -> Vec<GLine> {
+    let mut g = Gen::new(rng);
+    g.forced_name = name;
+    g.next_token = first_token;
+    g.commit_preamble();
+    if with_stat {
+        let n = g.fname(section);
+        g.push(format!(" {} | 4 ++--", n), LineKind::Meta, None, section, 0);
+        g.push(" 1 file changed, 2 insertions(+), 2 deletions(-)".into(), LineKind::Meta, None, section, 0);
+        g.push("".into(), LineKind::Meta, None, section, 0);
+    }
+    g.section(p, kind, section);
+    g.lines
+}
+
 pub fn generate_section_named(rng: &mut Rng, p: &GenParams, kind: SectionKind, section: usize, first_token: usize, name: Option<String>) -> Vec<GLine> {
     let mut g = Gen::new(rng);
     g.forced_name = name;
